@@ -827,6 +827,17 @@ func (h *hist) rollupStep(trig string) { h.rollupStepWith(trig, nil) }
 func (h *hist) rollupStepWith(trig string, during func()) {
 	pre := h.books()
 	nBefore := len(h.files)
+	// is the target store of (source family, interval) registered with the store manager when the job looks it up?
+	// (target segments open lazily after a restart and idle ones are closed by Shard.EvictSegment; rollup() skips
+	// such a target and must leave the marks for it alone)
+	open := map[[2]int64]bool{}
+	for _, f := range h.fams {
+		for _, iv := range h.m.targets {
+			name := tsdb.ShardSegmentPath(dbName, shardID, timeutil.Interval(iv), placeOf(iv, f.Start).Segment)
+			_, ok := kv.GetStoreManager().GetStoreByName(name)
+			open[[2]int64{int64(f.Idx), iv}] = ok
+		}
+	}
 	if h.beforeTrigger != nil {
 		h.beforeTrigger()
 	}
@@ -877,7 +888,33 @@ func (h *hist) rollupStepWith(trig string, during func()) {
 					h.res.count("concurrent_flush_left_for_the_next_job."+typ, 1)
 				}
 			}
+			storeOpen := open[[2]int64{int64(f.Idx), iv}]
+			if trig == trigForce && storeOpen && during == nil {
+				// a file that still has to go into this target but carries no mark any more can never be picked up: after a
+				// forced rollup with the target store available the property demands it in the target all the same
+				for _, fr := range h.files[:nBefore] {
+					if fr.Fam == f.Idx && fr.Status[iv] == stPending && !pre[f.Idx].has(fr.Number, iv) {
+						ran = append(ran, fr)
+						h.res.count("files_without_mark_that_still_had_to_be_rolled_up."+typ, 1)
+					}
+				}
+			}
 			if len(pend) == 0 {
+				continue
+			}
+			if !storeOpen {
+				left := 0
+				for _, fr := range pend {
+					if post[f.Idx].has(fr.Number, iv) {
+						left++
+					}
+				}
+				h.res.count("rollup_targets_skipped_because_store_not_open."+typ, 1)
+				if left != len(pend) {
+					h.res.violation("C04/bookkeeping/marks-removed-although-target-store-not-open/"+typ, fmt.Sprintf("step %d (%s): the %s target store of source family %s/%s was not registered when the rollup job ran (the job skips it), "+
+						"yet %d of the %d rollup marks for %s are gone (marks before %v, after %v): those files can never be rolled up into it",
+						h.stepNo, h.stepOp, typ, f.place.Segment, f.place.Family, len(pend)-left, len(pend), ivName(iv), pre[f.Idx].Marks, post[f.Idx].Marks), h.witness(nil))
+				}
 				continue
 			}
 			removed := 0
@@ -1198,6 +1235,79 @@ func (h *hist) reopen() bool {
 	return true
 }
 
+// reopenPartial restarts the engine and opens only some of the stores, the way production does it lazily:
+//
+//	lazy:  the source families are found through Shard.GetDataFamilies(day type, ...) (a query on the source interval
+//	       loads the source segment only); the segment of target type `keep` is loaded by a query on that interval type;
+//	       the other target segment stays closed until the next write (GetOrCrateDataFamily) or read of it.
+//	evict: everything is opened (GetOrCrateDataFamily), the families of target type `keep` are loaded by a query, then
+//	       Shard.EvictSegment closes every interval segment without a loaded family.
+//
+// keep = month | year | none.
+func (h *hist) reopenPartial(mode, keep string) bool {
+	h.refsBeforeReopen = ""
+	h.env.close()
+	e, err := openEnv(h.env.dataDir, nil)
+	if err != nil {
+		h.res.violation("C04/reopen/engine-does-not-open", fmt.Sprintf("step %d: %v", h.stepNo, err), h.witness(nil))
+		return false
+	}
+	h.env = e
+	keepIv := int64(0)
+	for _, iv := range h.m.targets {
+		if typeOf(iv) == keep {
+			keepIv = iv
+		}
+	}
+	touchKeep := func() {
+		if keepIv == 0 {
+			return
+		}
+		for _, f := range h.fams {
+			h.env.shard.GetDataFamilies(timeutil.Interval(keepIv).Type(), timeutil.TimeRange{Start: f.Start, End: f.Start + h.spec.Src})
+		}
+	}
+	if mode == "evict" {
+		if err := h.bind(); err != nil {
+			h.res.violation("C04/reopen/source-family-not-found", fmt.Sprintf("step %d: %v", h.stepNo, err), h.witness(nil))
+			return false
+		}
+		touchKeep()
+		h.env.shard.EvictSegment()
+		h.res.count("reopens_followed_by_segment_eviction", 1)
+	} else {
+		for _, f := range h.fams {
+			var found tsdb.DataFamily
+			for _, df := range h.env.shard.GetDataFamilies(timeutil.Interval(h.spec.Src).Type(), timeutil.TimeRange{Start: f.Start, End: f.Start + h.spec.Src}) {
+				if df.TimeRange().Start == f.place.FamStart && df.Family().Name() == f.place.Family {
+					found = df
+				}
+			}
+			st, ok := kv.GetStoreManager().GetStoreByName(tsdb.ShardSegmentPath(dbName, shardID, timeutil.Interval(h.spec.Src), f.place.Segment))
+			if found == nil || !ok {
+				h.res.violation("C04/reopen/source-family-not-found", fmt.Sprintf("step %d: Shard.GetDataFamilies(day type) does not list source family %s/%s after the restart", h.stepNo, f.place.Segment, f.place.Family), h.witness(nil))
+				return false
+			}
+			f.df, f.fam, f.store = found, found.Family(), st
+		}
+		touchKeep()
+		h.res.count("reopens_with_lazily_opened_stores", 1)
+	}
+	closed := 0
+	for _, f := range h.fams {
+		for _, iv := range h.m.targets {
+			if _, ok := kv.GetStoreManager().GetStoreByName(tsdb.ShardSegmentPath(dbName, shardID, timeutil.Interval(iv), placeOf(iv, f.Start).Segment)); !ok {
+				closed++
+			}
+		}
+	}
+	if closed > 0 {
+		h.res.count("reopens_leaving_a_target_store_closed", 1)
+	}
+	h.res.count("reopens", 1)
+	return true
+}
+
 // run executes the steps of the spec against a fresh engine in dir.
 func (h *hist) run(dir string) {
 	spec, res := h.spec, h.res
@@ -1279,6 +1389,15 @@ func (h *hist) run(dir string) {
 				return
 			}
 			h.checkAfter("reopen")
+		case "reopen-lazy", "reopen-evict":
+			keep := "none"
+			if k := strings.IndexByte(op, ':'); k >= 0 {
+				keep = op[k+1:]
+			}
+			if !h.reopenPartial(strings.TrimPrefix(name, "reopen-"), keep) {
+				return
+			}
+			name = "reopen" // for the context of the next rollup step; no target read here (it would open the stores)
 		case "crash":
 			h.crashStep(dir)
 		case "shutdown":
